@@ -162,7 +162,12 @@ pub mod fixedbitset {
         fn index(&self, bit: usize) -> (r: &bool) ensures *r == self.bits().contains(bit as nat) { unimplemented!() }
     }
 }
-pub assume_specification<T: Clone> [<[T]>::to_vec] (s: &[T]) -> (r: Vec<T>);
+// `to_vec` clones each element in order (std: "Copies `self` into a new `Vec`"). assume_specification must be stated at std's
+// generic signature, so the element relation is vstd's `cloned` (what `T::clone` ensures, or equality) - sound for every
+// `T: Clone`, the same shape vstd gives `Vec::clone`. The crate instantiates it only at `u8`, where vstd's spec of
+// `u8::clone` makes `cloned(a, b)` mean `a == b`, i.e. `r@ == s@` (derived in lib.rs::decode, not assumed here).
+pub assume_specification<T: Clone> [<[T]>::to_vec] (s: &[T]) -> (r: Vec<T>)
+    ensures r@.len() == s@.len(), forall|i: int| 0 <= i < s@.len() ==> vstd::pervasive::cloned::<T>(s@[i], #[trigger] r@[i]);
 
 // C14 vocabulary: which ISA an engine's code is compiled for, and the best one the CPU reports
 pub enum Isa { NoSimd, Ssse3, Avx2, Neon }
@@ -178,26 +183,6 @@ pub open spec fn best_isa_aarch64() -> Isa {
 pub axiom fn axiom_mut_slice_len<T>(r: &mut [T])
     ensures final(r)@.len() == old(r)@.len();
 
-// R14 helper (ASSUMED): `result.recovery_iter().map(<[u8]>::to_vec).collect()` — std's map/collect over the crate's
-// Recovery iterator, whose `next` is verified (C12) to yield recovery(0), recovery(1), ... in order
-#[verifier::external_body]
-pub fn collect_recovery(result: &crate::encoder_result::EncoderResult) -> (r: Vec<Vec<u8>>)
-    requires result.work.wf(), result.work.shard_bytes > 0
-    ensures r@.len() == old(result.work).recovery_count,
-        forall|j: int| 0 <= j < r@.len() ==> #[trigger] r@[j]@
-            == crate::engine::shards::Shards::flat(old(result.work).shards.shard(j)).subrange(0, old(result.work).shard_bytes as int)
-{ unimplemented!() }
-
-// R14 helper (ASSUMED): `let mut m = HashMap::new(); for (i, s) in result.restored_original_iter() { m.insert(i, s.to_vec()); }`
-// over the crate's RestoredOriginal iterator, whose `next` is verified (C12) to yield exactly the missing originals in index order
-#[verifier::external_body]
-pub fn collect_restored(result: &crate::decoder_result::DecoderResult) -> (r: std::collections::HashMap<usize, Vec<u8>>)
-    requires result.work.wf(), result.work.shard_bytes > 0
-    ensures
-        forall|idx: usize| #[trigger] r@.contains_key(idx) <==> (idx < old(result.work).original_count && !old(result.work).orig_set().contains(idx as int)),
-        forall|idx: usize| #[trigger] r@.contains_key(idx) ==> r@[idx]@
-            == crate::engine::shards::Shards::flat(old(result.work).shards.shard(old(result.work).original_base_pos + idx)).subrange(0, old(result.work).shard_bytes as int),
-{ unimplemented!() }
 pub assume_specification<T> [<[T] as std::convert::AsRef<[T]>>::as_ref] (s: &[T]) -> (r: &[T])
     ensures r@ == s@;
 
